@@ -14,6 +14,7 @@ pub mod desc;
 pub mod gen;
 pub mod invariant;
 pub mod model;
+pub mod slice;
 
 pub use gen::{CommentClass, GenCfg, ParamSrc};
 pub use model::{from_quill, from_quill_diff, to_quill, to_quill_diff, Act, Class, ClassDiff, Field, FieldDiff, Ins, Maps, MapsDiff, Method, MethodDiff, Param, ParamDiff};
